@@ -18,13 +18,14 @@ import (
 	"example.com/scion-time/net/udp"
 )
 
-var errNoPath = errors.New("failed to dial QUIC connection: no path")
+var (
+	errNoPath   = errors.New("failed to dial QUIC connection: no path")
+	errNoDaemon = errors.New("failed to dial QUIC connection: no connection to the SCION daemon")
+)
 
 func dialQUIC(ctx context.Context, log *slog.Logger, localAddr, remoteAddr udp.UDPAddr, daemonAddr string, config *tls.Config) (*scion.QUICConnection, Data, error) {
 	config.NextProtos = []string{alpn}
 	var err error
-
-	dc := scion.NewDaemonConnector(ctx, daemonAddr)
 
 	var ps []snet.Path
 	if remoteAddr.IA == localAddr.IA {
@@ -35,6 +36,14 @@ func dialQUIC(ctx context.Context, log *slog.Logger, localAddr, remoteAddr udp.U
 			NextHop:       remoteAddr.Host,
 		}}
 	} else {
+		// the daemon is needed for the path lookup only: connected to per
+		// exchange, it is also let go of again
+		dc := scion.NewDaemonConnector(ctx, daemonAddr)
+		if dc == nil {
+			// no daemon configured, or not reached before the caller's deadline
+			return nil, Data{}, errNoDaemon
+		}
+		defer func() { _ = dc.Close() }()
 		ps, err = dc.Paths(ctx, remoteAddr.IA, localAddr.IA, daemon.PathReqFlags{Refresh: true})
 		if err != nil {
 			log.LogAttrs(ctx, slog.LevelError,
